@@ -21,5 +21,5 @@ for pid in sorted(os.listdir(os.path.join(ROOT, "props"))):
             assert x["property"] == pid, (pid, x)
             out.append(x)
 kf["findings"] = out
-json.dump(kf, open(os.path.join(ROOT, "known_findings.json"), "w"), indent=1)
+atomic_dump(kf, os.path.join(ROOT, "known_findings.json"))
 print("open findings:", len(out))
